@@ -47,7 +47,11 @@ def gen(seed, run, tier='quick'):
                     used.add(r)
                     break
             rates[str(j)] = f"{r}/1000"
-        mconvs.append({'base': base, 'rates': rates})
+        # half of the converters hold dated rates and read a configured
+        # default-date callable (which may fail, see 'enter' below)
+        mconvs.append({'base': base, 'rates': rates,
+                       'kind': rng.choice(['none', 'none', 'day', 'month',
+                                           'year'])})
     if rng.random() < 0.3:
         # twins: two distinct converter objects with identical content
         # (conversions cannot tell them apart, the registry must)
@@ -151,7 +155,13 @@ def gen(seed, run, tier='quick'):
             if depth >= max_depth:
                 continue
             c = rng.randrange(n_mc)
-            toks.append(['enter', c])
+            if rng.random() < 0.15:
+                # the converter's default-date callable fails (raises,
+                # answers None, answers a string) should the with-statement
+                # consult it on entry
+                toks.append(['enter', c, rng.randrange(1, 4)])
+            else:
+                toks.append(['enter', c])
             mstack.append(c)
             depth += 1
         elif k == 'leave':
@@ -292,15 +302,35 @@ def execute(h):
 
     curs = [Money.register_currency(c) for c in cfg['codes']]
     n_cur = len(curs)
+    clock_fault = {}    # id of spec -> fault mode armed for the next read
+
     def build_mconv(spec):
         base = curs[spec['base'] % n_cur]
-        mc = MoneyConverter(base)
+        kind = spec.get('kind', 'none')
+        if kind == 'none':
+            mc = MoneyConverter(base)
+            validity = None
+        else:
+            def dflt_date(key=id(spec)):
+                mode = clock_fault.pop(key, 0)
+                if mode:
+                    clock_fault['fired'] = mode
+                if mode == 1:
+                    raise LookupError('no booking date')
+                if mode == 2:
+                    return None
+                if mode == 3:
+                    return '2024-02-29'
+                return datetime.date(2024, 2, 29)
+            mc = MoneyConverter(base, get_dflt_effective_date=dflt_date)
+            validity = {'day': datetime.date(2024, 2, 29),
+                        'month': (2024, 2), 'year': 2024}[kind]
         rates = [(curs[int(j) % n_cur], Decimal(_frac(r).numerator) /
                   Decimal(_frac(r).denominator), 1)
                  for j, r in sorted(spec['rates'].items())
                  if curs[int(j) % n_cur] is not base]
         if rates:
-            mc.update(None, rates)
+            mc.update(validity, rates)
         return mc
 
     mconvs = [build_mconv(spec) for spec in cfg['mconvs']]
@@ -811,8 +841,14 @@ def execute(h):
             c = t[1] % len(mconvs)
             body_exc = None
             exc = None
+            entered = False
+            clock_fault.pop('fired', None)
+            if len(t) > 2 and t[2]:
+                clock_fault[id(cfg['mconvs'][c])] = t[2]
             try:
                 with mconvs[c]:
+                    entered = True
+                    clock_fault.pop(id(cfg['mconvs'][c]), None)
                     if c in mstack:
                         bump(probes, 'duplicate_on_money_stack')
                     mstack.append(c)
@@ -828,6 +864,18 @@ def execute(h):
                 raise
             except (Exception, _SimAbort) as e:
                 exc = e
+            clock_fault.pop(id(cfg['mconvs'][c]), None)
+            if not entered:
+                # the with-statement failed on entry (the date callable was
+                # consulted and failed): the block was never entered and
+                # __exit__ will not run, so nothing may stay registered
+                if not clock_fault.pop('fired', None):
+                    violate('money_enter', 'refused', i, conv=c,
+                            observed=type(exc).__name__)
+                bump(faults, 'with_statement_failed_on_entry')
+                after(i, 'enter-failed')
+                i = j + 1
+                continue
             exit_raised = exc is not None and exc is not body_exc
             if mstack and mstack[-1] == c:
                 mstack.pop()
